@@ -825,6 +825,8 @@ def run_terms(rep, repo, tier):
                   got=used, construct='helper structures')
         rep.ok('C06.R3', f.where, 'all rows of self.pairs x all pairs of the row are examined; False at the first blocking pair, True after the loops', got='loop domains = all rows x all pairs of the row')
     rep.extra['exhaustive_valuations'] = len(vals)
+    from ..defined import check_defined
+    check_defined(rep, repo, 'C06.R1', [f], 'stability checker')
     check_caller(rep, repo)
 
 
